@@ -12,13 +12,6 @@
 import RoModel.FactPreds
 namespace Ro.Facts
 
-/-- `emitMode (r :: rest)`: the constructor mode of the subscriber that `r` emits into, when the
-    stages downstream of `r` are `rest` (nearest first) and the final observer is a plain observer. -/
-def emitMode : List OpFact → Option Ctor
-  | [] => none
-  | [r] => some r.ctor
-  | r :: r' :: rest => if r'.passThrough then emitMode (r' :: rest) else some r.ctor
-
 theorem emitMode_mem : ∀ (r : OpFact) (rest : List OpFact) (c : Ctor), emitMode (r :: rest) = some c →
     c = r.ctor ∨ ∃ q ∈ rest, q.passThrough = true ∧ c = q.ctor
   | r, [], c, h => by simp [emitMode] at h; exact Or.inl h.symm
@@ -30,8 +23,6 @@ theorem emitMode_mem : ∀ (r : OpFact) (rest : List OpFact) (c : Ctor), emitMod
       · exact Or.inr ⟨r', List.mem_cons_self .., hp, h1⟩
       · exact Or.inr ⟨q, List.mem_cons_of_mem _ hq, hqp, hqc⟩
     · simp at h; exact Or.inl h.symm
-
-def serializedMode (c : Ctor) : Bool := c == .safeC || c == .evSafeC
 
 /-- **C02 (b)**: in any pipe whose stages all satisfy the strict row predicate, every stage that
     can be fed from several goroutines emits into a locking subscriber — whatever follows it. -/
